@@ -112,9 +112,12 @@ pub enum Family {
     FarOffsets,
     /// like General, but the matcher hands out blocks that are larger than the window it declares
     BlockLargerThanWindow,
+    /// many different LL / ML / offset codes used about equally often plus one rare code: the histograms that
+    /// need the largest table logs
+    FlatCodes,
 }
 
-pub const FAMILIES: &[Family] = &[Family::General, Family::ManyTiny, Family::SingleCode, Family::Extreme, Family::SameLiterals, Family::RawBetweenHuffman, Family::FarOffsets, Family::BlockLargerThanWindow];
+pub const FAMILIES: &[Family] = &[Family::General, Family::ManyTiny, Family::SingleCode, Family::Extreme, Family::SameLiterals, Family::RawBetweenHuffman, Family::FarOffsets, Family::BlockLargerThanWindow, Family::FlatCodes];
 
 struct Builder {
     /// largest block the script uses: min(128 KiB, window) unless the family is about blocks larger than the window
@@ -209,7 +212,7 @@ pub fn gen_frame(r: &mut Rng, family: Family, thorough: bool) -> FrameScript {
         window = window.max(1024);
     }
     // families that need big blocks use windows that can hold them
-    if matches!(family, Family::ManyTiny | Family::Extreme | Family::RawBetweenHuffman | Family::SameLiterals) {
+    if matches!(family, Family::ManyTiny | Family::Extreme | Family::RawBetweenHuffman | Family::SameLiterals | Family::FlatCodes) {
         window = window.max(BLOCK as u64);
     }
     let mut b = Builder::new(window, family != Family::BlockLargerThanWindow);
@@ -413,6 +416,46 @@ pub fn gen_frame(r: &mut Rng, family: Family, thorough: bool) -> FrameScript {
             }
         }
         Family::BlockLargerThanWindow => unreachable!(),
+        Family::FlatCodes => {
+            // a first block to copy from
+            let n0 = r.usize(20_000, 60_000);
+            b.trailing(&lits(r, n0, alpha.max(16), base));
+            b.end_block();
+            let flat_ll = r.chance(1, 2);
+            let flat_ml = r.chance(1, 2);
+            let per_code = r.usize(8, 40);
+            let max_of_code = (usize::BITS - 1 - (b.max_offset() + 3).leading_zeros()) as usize;
+            let of_codes: Vec<usize> = (2..=max_of_code.min(16)).collect();
+            let rare = *r.pick(&of_codes);
+            let mut plan: Vec<usize> = Vec::new();
+            for c in &of_codes {
+                let k = if *c == rare { 1 } else { per_code };
+                plan.extend(std::iter::repeat_n(*c, k));
+            }
+            for i in (1..plan.len()).rev() {
+                let j = r.usize(0, i);
+                plan.swap(i, j);
+            }
+            for code in plan {
+                // offset value in [2^code, 2^(code+1)), offset = value - 3
+                let lo = (1usize << code).max(4);
+                let hi = ((1usize << (code + 1)) - 1).min(b.max_offset() + 3);
+                if lo > hi {
+                    continue;
+                }
+                let offset = r.usize(lo, hi) - 3;
+                let ll = if flat_ll { zspec::tables::LL_BASE[r.usize(0, 22)] as usize } else { r.usize(0, 3) };
+                let ml = if flat_ml { zspec::tables::ML_BASE[r.usize(0, 36)] as usize } else { r.usize(3, 6) };
+                let l = lits(r, ll.min(b.room()), alpha, base);
+                if offset == 0 || offset > (b.window as usize).min(b.produced() + l.len()) || !b.seq(&l, offset, ml) {
+                    if b.room() < 300 {
+                        b.end_block();
+                    }
+                    continue;
+                }
+            }
+            b.end_block();
+        }
         Family::FarOffsets => {
             // many blocks, matches reaching as far back as the window allows
             let total = (window as usize * 2).min(if thorough { 48 << 20 } else { 6 << 20 });
@@ -662,7 +705,7 @@ pub fn run(args: &Args) -> i32 {
         return rec.finish();
     }
 
-    let n = args.vol(1500, 60_000);
+    let n = args.vol(10_000, 300_000);
     par_cases(&rec, 16, n, |i, r| {
         let family = FAMILIES[(i % FAMILIES.len() as u64) as usize];
         // the expensive families less often
